@@ -144,7 +144,7 @@ def gen_cases(tier, seed):
                                 {"seed": "11" * 16, "rules": []})
                 i += 1
     # 3. random trees x plans
-    total = 6000 if quick else 60000
+    total = 12000 if quick else 120000
     for k in range(total):
         rng = Rng(derive(seed, PROP, "tree", k))
         max_entries = 8 if not quick else (5 if k % 3 else 8)
